@@ -4,7 +4,6 @@ import (
 	"encoding/binary"
 	"encoding/hex"
 	"hash"
-	"path"
 	"strconv"
 	"strings"
 
@@ -239,6 +238,20 @@ func newDigestFromByteStreamPathCommon(header, trailer []string) (Digest, remote
 	return d, compressor, err
 }
 
+// joinResourceNameFields joins the non-empty fields of a resource name
+// with slashes. Unlike path.Join() it does not lexically clean the
+// result, as that would rewrite instance names containing "." or ".."
+// components into different instance names.
+func joinResourceNameFields(fields ...string) string {
+	nonEmpty := make([]string, 0, len(fields))
+	for _, field := range fields {
+		if field != "" {
+			nonEmpty = append(nonEmpty, field)
+		}
+	}
+	return strings.Join(nonEmpty, "/")
+}
+
 // GetByteStreamReadPath converts the Digest to a string having
 // one of the following formats:
 //
@@ -248,7 +261,7 @@ func newDigestFromByteStreamPathCommon(header, trailer []string) (Digest, remote
 // This notation is used to read files through the ByteStream service.
 func (d Digest) GetByteStreamReadPath(compressor remoteexecution.Compressor_Value) string {
 	digestFunction, hashStart, hashEnd, sizeBytes, sizeBytesEnd := d.unpack()
-	return path.Join(
+	return joinResourceNameFields(
 		d.value[sizeBytesEnd+1:],
 		compressorEnumToMidfix[compressor],
 		digestFunctionEnumToMidfix[digestFunction],
@@ -266,7 +279,7 @@ func (d Digest) GetByteStreamReadPath(compressor remoteexecution.Compressor_Valu
 // This notation is used to write files through the ByteStream service.
 func (d Digest) GetByteStreamWritePath(uuid uuid.UUID, compressor remoteexecution.Compressor_Value) string {
 	digestFunction, hashStart, hashEnd, sizeBytes, sizeBytesEnd := d.unpack()
-	return path.Join(
+	return joinResourceNameFields(
 		d.value[sizeBytesEnd+1:],
 		"uploads",
 		uuid.String(),
